@@ -1,7 +1,7 @@
 (* C03 - the reader model against the declarative description, piece by piece.
    spec P bytes ok v :  run on  bytes ++ r  (r not continuing a number) the parser P
                         succeeds iff ok, and then returns exactly v and leaves exactly r.          *)
-Require Import V.Lib.Base V.Lib.Calls V.Lib.Dec V.C09.Spec V.Gen.Consts V.C01.Read V.C01.ProofsPrim V.C03.Spec.
+Require Import V.Lib.Base V.Lib.Calls V.Lib.Dec V.C09.Spec V.Gen.Consts V.Gen.Consts_C01 V.C01.Read V.C01.ProofsPrim V.C03.Spec.
 Require Import ZifyBool.
 Local Open Scope Z_scope.
 
@@ -244,8 +244,8 @@ Proof.
     destruct Hget as (ln2 & ->).
     rewrite copy_k_eq by lia. unfold a_copy. destruct (Z.ltb_spec (Z.of_nat (length (s_bytes s))) 0); [lia|].
     rewrite Nat2Z.id. cbn [rest aline]. rewrite firstn_app_exact, skipn_app_exact. rewrite Z.eqb_refl.
-    unfold r_str, STR_MAX, INT_MAX, I_MAX in *. cbn [rest]. split; [lia | auto].
-  - unfold r_str, STR_MAX, INT_MAX, I_MAX in *. lia.
+    unfold r_str, STR_MAX, rd_str_max, INT_MAX, I_MAX in *. cbn [rest]. split; [lia | auto].
+  - unfold r_str, STR_MAX, rd_str_max, INT_MAX, I_MAX in *. lia.
 Qed.
 
 Lemma nd_start_str s : str_ok s = true -> nd_start (render_str s).
